@@ -118,11 +118,32 @@ LenOf(W, st, a) ==
          IF h = Nil THEN Out("err", <<>>, Nil, st.heap)
          ELSE Eval1(W, CallValue(st, h, <<a>>, FALSE, NoPos))
 
+(* getmetatable(v) (manual 5.1): nil without a metatable; the value of the metatable's
+   __metatable field whenever that field is present (non-nil) - whatever the value,
+   false included; the metatable itself otherwise.  R.tmt lists the type metatables
+   installed for this case (numbers, booleans, nil, functions, strings). *)
+TypeMtRef(R, v) == LET s == {i \in 1..Len(R.tmt) : R.tmt[i][1] = v[1]} IN
+                   IF s = {} THEN 0 ELSE R.tmt[CHOOSE i \in s : TRUE][2]
+MtRef(R, st, v) == IF v[1] \in {"t", "u"} THEN st.heap[v[2]].mt
+                   ELSE IF TypeMtRef(R, v) # 0 THEN TypeMtRef(R, v)
+                   ELSE IF v[1] = "s" THEN st.smt ELSE 0
+MtField(st, ref) == TGet(st.heap[ref].kv, Str(Bytes("__metatable")))
+GetMt(R, st, v) == LET ref == MtRef(R, st, v) IN
+                   IF ref = 0 THEN Nil
+                   ELSE IF MtField(st, ref) # Nil THEN MtField(st, ref) ELSE <<"t", ref>>
+RawMt(R, st, v) == LET ref == MtRef(R, st, v) IN IF ref = 0 THEN Nil ELSE <<"t", ref>>
+(* setmetatable(t, m) on a table: refused when the current metatable has a __metatable field *)
+ProtSet(R, st, t, m) ==
+    IF t[1] # "t" \/ ~(m[1] \in {"nil", "t"}) THEN Out("unmod", <<>>, Nil, st.heap)
+    ELSE IF st.heap[t[2]].mt # 0 /\ MtField(st, st.heap[t[2]].mt) # Nil THEN Out("err", <<>>, Nil, st.heap)
+    ELSE Out("val", <<>>, <<t, m>>, st.heap)
+
 Known(v) == v[1] \in {"nil", "b", "n", "s", "t", "u", "bi"}
 
 SpecOutcome(R) ==
     LET W == Worlds[R.w]  st == St0(R)  a == R.a  G == <<"t", W.G>> IN
     IF \E i \in 1..Len(a) : ~Known(a[i]) THEN Out("unmod", <<>>, Nil, st.heap)
+    ELSE IF R.tmt # <<>> /\ R.op # "GetMetatable" THEN Out("unmod", <<>>, Nil, st.heap)   \* LuaSem knows no type metatables
     ELSE CASE R.op \in {"GetTable", "GetField"} -> Eval1(W, DoIndex(st, a[1], a[2], NoPos, 100))
            [] R.op \in {"SetTable", "SetField"} -> Eval1(W, DoNewIndex(st, a[1], a[2], a[3], NoPos, 100))
            [] R.op = "GetGlobal" -> Eval1(W, DoIndex(st, G, a[1], NoPos, 100))
@@ -132,7 +153,9 @@ SpecOutcome(R) ==
            [] R.op = "LessThan" -> Lt(W, st, a[1], a[2])
            [] R.op = "Concat" -> (IF Len(a) = 2 THEN Cat2(W, st, a[1], a[2]) ELSE Cat3(W, st, a[1], a[2], a[3]))
            [] R.op = "ObjLen" -> LenOf(W, st, a[1])
-           [] R.op = "GetMetatable" -> Eval1(W, Builtin(<<>>, st, "getmetatable", a, FALSE, NoPos))
+           [] R.op = "GetMetatable" -> Out("val", <<>>, GetMt(R, st, a[1]), st.heap)
+           [] R.op = "RawMetatable" -> Out("val", <<>>, RawMt(R, st, a[1]), st.heap)
+           [] R.op = "ProtectedSet" -> ProtSet(R, st, a[1], a[2])
            [] R.op = "ToStringMeta" -> Eval1(W, Builtin(<<>>, st, "tostring", a, FALSE, NoPos))
            [] OTHER -> Out("val", <<>>, Nil, st.heap)          \* Next / NextWalk: judged by NextOK
 
@@ -161,7 +184,9 @@ SpecFail(R, O) ==
     ELSE IF ~CallsEq(R.lua.calls, O.calls) THEN "calls"
     ELSE IF R.op \in {"Next", "NextWalk"} THEN (IF NextOK(R, R.lua.res) THEN "" ELSE "result")
     ELSE IF O.k = "val" /\ R.op \in {"SetTable", "SetField", "SetGlobal"} /\ Len(R.lua.res) # 0 THEN "result"
-    ELSE IF O.k = "val" /\ R.op \notin {"SetTable", "SetField", "SetGlobal"}
+    ELSE IF O.k = "val" /\ R.op = "ProtectedSet"
+            /\ ~(Len(R.lua.res) = 2 /\ TokEq(R.lua.res[1], O.v[1]) /\ TokEq(R.lua.res[2], O.v[2])) THEN "result"
+    ELSE IF O.k = "val" /\ R.op \notin {"SetTable", "SetField", "SetGlobal", "ProtectedSet"}
             /\ ~(Len(R.lua.res) = 1 /\ TokEq(R.lua.res[1], O.v)) THEN "result"
     ELSE IF ~PostOK(R, O) THEN "post"
     ELSE ""
